@@ -63,7 +63,8 @@ def gen_recording_cfg(rng, prop, tier, backends=None, dtypes=None, max_n=64, max
     if rng.random() < 0.8:
         cfg['chunk'] = rng.choice([1, 2, 3, 5, 7, 16, max(1, n // 2), n, n + 3])
     if backend == 'flat':
-        cfg['parts'] = composition(rng, n, rng.choice([1, 1, 2, 3, 4]))
+        cfg['parts'] = composition(rng, n, rng.choice([1, 1, 2, 3, 4]) if rng.random() < 0.93
+                                   else rng.choice([9, 10, 12, 17, 33]))
         cfg['offset'] = rng.choice([0, 0, 1, 2, 7, 16, 64])
         cfg['ext'] = rng.choice(['.dat', '.bin', '.raw'])
         cfg['naming'] = rng.choice(['indexed', 'unpadded', 'reversed'])
